@@ -161,6 +161,8 @@ func runC02(c *core.Ctx) {
 	c.Rule("R2.5", "the get back-fill writes into L1 the key, flags, data and remaining TTL of the response received from L2's gete", 1)
 
 	checkL2First(c, "R2.1")
+	c.Rule("R2.6", "each two-tier orchestrator method calls exactly the handler methods of the orchestration contract: the L1 operation is the one that keeps L1 a copy of what the L2 operation of the same command stored", 20)
+	runR12(c, "R2.6", []string{"L1L2", "L1L2Batch"})
 
 	// ---- R2.2
 	if role, err := resolveOrca(c, "L1L2Batch"); err != nil {
